@@ -49,13 +49,27 @@ CLAIMS["C09"] = {
             "documented); one known finding (frame exactly on the cap) routed through known_findings.jsonl",
     "technique": TECH,
 }
+CLAIMS["C11"] = {
+    "level": "other",
+    "text": "run_md -> retis_swap_zero / quantis_swap_zero executed with deterministic time-reversible line engines on symbolic order "
+            "sequences, interfaces (with and without lambda_-1), integer length limit, energies, betas and draw. For every feasible "
+            "outcome the solver shows: an accepted swap ends the new [0-] path with old [0+] frames 0,1 and starts the new [0+] path "
+            "with old [0-] frames -2,-1, both valid in their ensembles and time-ordered; accept <=> ACC; old paths untouched; a second "
+            "swap restores both order sequences (and is accepted whenever the originals fit the limit); the exponent handed to exp "
+            "equals beta0*dV0-beta1*dV1 as a polynomial identity and the energy test passes <=> u <= min(1,exp(.)); a [0-] path that "
+            "ended left is rejected with zero propagations. Bounded: old paths 3..4 frames (5 thorough), limit <= 5 (6).",
+    "design_ref": "DESIGN.md section 3 C11 (H11)",
+    "note": "LineEngine stub (C12 contract, reversible dynamics) with the real add_to_path; exp as an arbitrary positive value; no "
+            "old-path frame exactly on lambda_0; shared tis_set; z3 trusted",
+    "technique": TECH,
+}
 PENDING = "check not built yet in this revision (see DESIGN.md for the plan); no claim is made"
 NOT_APPLICABLE = {
     "C01": "statistical convergence of a whole stochastic sampler: no bounded symbolic encoding; its algebraic obligations are decided under C02/C04/C09/C10/C11",
     "C08": "quantifies over crash positions in a trace of OS file-system effects and the outcome of TOML/path parsers on truncated trees: not symbolically executable with the installed tools (fault enumeration is a different technique family)",
     "C19": "every clause is a round trip through C-level text/binary codecs (str.format/float, struct, re, genfromtxt): not executable on symbolic data here",
 }
-for _p in ["C03", "C04", "C05", "C06", "C07", "C11", "C12", "C13", "C14", "C16", "C17", "C18", "C20"]:
+for _p in ["C03", "C04", "C05", "C06", "C07", "C12", "C13", "C14", "C16", "C17", "C18", "C20"]:
     if _p not in CLAIMS:
         NOT_APPLICABLE[_p] = PENDING
 NOTES = ("All checks: exit 0 held within the stated bounds; exit 1 + VIOLATION line only for a counterexample that was replayed "
